@@ -9,18 +9,22 @@ components of `ResolveRefsIn`) and `loadDoc` (`loadFromURIInternal` + `loadFromD
 
 * `component.Value != nil → return`            : `marks` (keyed by document, load generation, node id)
 * `shouldVisitRef / visitRef / unvisitRef`     : `inprog`, `pend` (backtrack callbacks)
-* `isSingleRefElement → loadSingleElementFromURI` : guard, resolve against `documentPath`, read, and
-  (for the kinds that assign the result to `documentPath`) the new current location
+* `isSingleRefElement → loadSingleElementFromURI` : guard, resolve against `documentPath`, read, and the
+  new current location (all ten resolvers assign the result to `documentPath` since 0a3c233)
 * `resolveComponent`: `resolveRefAndDocument` (guard inside `resolveRefPath`, read BEFORE the
   `visitedDocuments` look-up, full `ResolveRefsIn` of a document seen for the first time), the typed
-  drill, the raw re-read fallback of the CURRENT `path`, the recursive call on the copy with
+  drill into `componentDoc`, the raw re-read fallback of `componentPath` (the REFERENCED document since
+  f972c33; for a '#'-reference that is the caller's `documentPath`), the recursive call on the copy with
   `(componentDoc, componentPath)`, then the second walk of the value's children with the OUTER
-  `(doc, documentPath)`; path items re-assign `(doc, documentPath)` instead.
+  `(doc, documentPath)`; path items re-assign `(doc, documentPath)` instead, and a drilled path item that
+  is itself a `$ref` is resolved (as a copy) before it is assigned (9b25d89).
+* a backtrack callback only assigns a value of its own kind (a04fe6c).
 * reads performed before an error are part of the outcome (the log is kept on every path).
 
 Path items have no `Value`: the code tests `!pathItem.isEmpty()` instead; the model treats a path item
-that was assigned from a loaded/drilled one as set (path-item files and targets are non-empty in the
-generated inputs).
+that was assigned from a loaded/drilled one as set, unless the file it was loaded from is empty as a path item
+(`File.emptyPI`: the item stays empty, is never "set", and is resolved again on every visit); inline path items
+are non-empty in the generated inputs.
 
 Abstracted (inputs of the model, validated by the differential run): `url.Parse` of a reference text
 (the case carries scheme/host/path/fragment), JSON/YAML parsing (`parses`), the position tables of the
@@ -81,11 +85,6 @@ inductive Kind where
   | header | parameter | requestBody | response | schema | securityScheme | example | callback | link | pathItem
   deriving DecidableEq, Repr
 
-/-- the resolvers that assign the location returned by `loadSingleElementFromURI` to `documentPath` -/
-def Kind.updatesPath : Kind → Bool
-  | .securityScheme | .example | .link => false
-  | _ => true
-
 inductive Form where
   | internal   -- text starts with '#'
   | whole      -- no '#' in the text: `isSingleRefElement`
@@ -119,12 +118,18 @@ end
 structure File where
   parses : Bool                    -- JSON/YAML unmarshal succeeds
   tops : List Node                 -- as a document: the elements `ResolveRefsIn` visits, in its order
-  elem : List Node                 -- as a single element: the sub-elements its resolver visits
+  elems : List (Kind × List Node)  -- as a single element read by the resolver of a kind: the sub-elements that resolver visits
   typed : List (String × Node)     -- fragment → element found by the typed drill
   raw : List (String × Node)       -- fragment → element found by the raw drill of the re-read fallback
+  conflict : Bool := false         -- as a single element it has both a `schema` and a `content` member (an error for a parameter)
+  emptyPI : Bool := false          -- read as a path item it is empty (`isEmpty()`: no summary, description, operation, server, parameter)
+
+def refsViews : List (Kind × List Node) → List Ref
+  | [] => []
+  | (_, ks) :: rest => refsList ks ++ refsViews rest
 
 def File.refs (f : File) : List Ref :=
-  refsList f.tops ++ refsList f.elem ++ refsList (f.typed.map (·.2)) ++ refsList (f.raw.map (·.2))
+  refsList f.tops ++ refsViews f.elems ++ refsList (f.typed.map (·.2)) ++ refsList (f.raw.map (·.2))
 
 inductive Entry where
   | file | data | dataWithPath
@@ -147,6 +152,13 @@ def Input.root (inp : Input) : Option Url :=
 def assoc {α β : Type} [DecidableEq α] (k : α) : List (α × β) → Option β
   | [] => none
   | (k', v) :: rest => if k' = k then some v else assoc k rest
+
+/-- the sub-elements the resolver of `k` visits in the file read as a single element (none when the file has no
+    position that resolver knows) -/
+def File.elemAs (f : File) (k : Kind) : List Node :=
+  match assoc k f.elems with
+  | some ks => ks
+  | none => []
 
 /-- what a read of `u` yields -/
 def storeAt (inp : Input) (u : Url) : Option File :=
@@ -173,12 +185,12 @@ abbrev Val := Home × List Node       -- a resolved value: where its sub-element
 
 structure St where
   log : List Url                     -- locations passed to `ReadFromURIFunc`, in order
-  foreign : Bool                     -- some read resolved a reference against a location that is not its document's
+  foreign : Bool                     -- some guarded read went to a location that is NOT the resolution of its reference against its own document's location
   oof : Bool                         -- out of fuel (never with enough fuel)
   docs : List Url                    -- `visitedDocuments`
   marks : List (Key × Val)           -- components whose `Value` is set
   inprog : List String               -- `visitedRefs`
-  pend : List (String × Key)         -- `backtrack`
+  pend : List (String × Kind × Key)  -- `backtrack`: reference text, kind the callback accepts, component to assign
   tr : List Nat                      -- branch trace (coverage evidence only; no definition reads it)
 
 def St.init : St := ⟨[], false, false, [], [], [], [], []⟩
@@ -200,31 +212,36 @@ def logRead (aligned : Bool) (u : Url) (st : St) : St :=
 def setMark (copy : Bool) (k : Key) (v : Val) (st : St) : St :=
   if copy then st else { st with marks := (k, v) :: st.marks }
 
-def addPend (copy : Bool) (text : String) (k : Key) (st : St) : St :=
-  if copy then st else { st with pend := (text, k) :: st.pend }
+def addPend (copy : Bool) (text : String) (kind : Kind) (k : Key) (st : St) : St :=
+  if copy then st else { st with pend := (text, kind, k) :: st.pend }
 
-/-- `unvisitRef(ref, value)` -/
-def unvisit (text : String) (v : Option Val) (st : St) : St :=
+/-- `unvisitRef(ref, value)`: the callbacks registered for `text` run with the value; a callback registered by a
+    resolver of another kind ignores it (type assertion `v, ok := value.(*Kind)`) -/
+def unvisit (text : String) (kind : Kind) (v : Option Val) (st : St) : St :=
   { st with
     inprog := st.inprog.erase text
     pend := st.pend.filter (fun p => !(p.1 == text))
     marks := match v with
       | none => st.marks
-      | some val => (st.pend.filter (fun p => p.1 == text)).map (fun p => (p.2, val)) ++ st.marks
-    tr := if (st.pend.any (fun p => p.1 == text)) && v.isSome then 11 :: st.tr else st.tr }
+      | some val => (st.pend.filter (fun p => p.1 == text && decide (p.2.1 = kind))).map (fun p => (p.2.2, val)) ++ st.marks
+    tr := (if (st.pend.any (fun p => p.1 == text && decide (p.2.1 = kind))) && v.isSome then [11] else []) ++
+          (if (st.pend.any (fun p => p.1 == text && !decide (p.2.1 = kind))) then [21] else []) ++ st.tr }
 
 /-- the guard `allowsExternalRefs`, then `resolvePathWithRef(ref, documentPath)`;
-    also tells whether `documentPath` is the location of the document the reference was found in -/
+    also tells whether the location obtained is the resolution of the reference against the location of the
+    document the reference was found in (`home`) — it is whenever `documentPath` is that location -/
 def guardExt (inp : Input) (cx : Cx) (home : Home) (r : Ref) : Option (Url × Bool) :=
-  if inp.allowed then some (resolvePath cx.path r.url, decide (home.1 = cx.path)) else none
+  if inp.allowed then
+    some (resolvePath cx.path r.url, decide (resolvePath cx.path r.url = resolvePath home.1 r.url))
+  else none
 
-/-- the two drills of `resolveComponent` -/
-def drill (inp : Input) (cx : Cx) (cdoc : Option Url) (frag : String) (kind : Kind) (st : St) :
+/-- the two drills of `resolveComponent`: typed into `componentDoc`, raw into a fresh read of `componentPath` -/
+def drill (inp : Input) (cdoc cpath : Option Url) (frag : String) (kind : Kind) (st : St) :
     St × Option (Home × Node) :=
   match (docAt inp cdoc).bind (fun f => assoc frag f.typed) with
   | some t => if t.kind = kind then (tick 7 st, some ((cdoc, 0), t)) else (tick 9 st, none)
   | none =>
-    match cx.path with
+    match cpath with
     | none => (tick 17 st, none)
     | some p =>
       match storeAt inp p with
@@ -251,7 +268,7 @@ def resolve (inp : Input) : Nat → Cx → Home → Bool → Node → St → St 
       match assoc (home, id) st.marks with
       | some v => (tick 1 st, .ok (some v))
       | none =>
-        if r.text ∈ st.inprog then (tick 2 (addPend copy r.text (home, id) st), .ok none)
+        if r.text ∈ st.inprog then (tick 2 (addPend copy r.text kind (home, id) st), .ok none)
         else
           match r.form with
           | .whole =>
@@ -262,12 +279,17 @@ def resolve (inp : Input) : Nat → Cx → Home → Bool → Node → St → St 
               | none => (tick 12 (logRead al u { st with inprog := r.text :: st.inprog }), .err)
               | some file =>
                 if file.parses then
-                  match walk inp f (if kind.updatesPath then ⟨cx.doc, some u⟩ else cx) (some u, st.log.length + 1) file.elem
-                      (setMark copy (home, id) ((some u, st.log.length + 1), file.elem)
+                  -- resolveParameterRef: "cannot contain both schema and content in a parameter"
+                  if kind = .parameter && file.conflict then (tick 22 (logRead al u { st with inprog := r.text :: st.inprog }), .err) else
+                  -- `*pathItem = p` with an empty p: nothing to walk, the item stays unset, the callbacks copy an empty item
+                  if kind = .pathItem && file.emptyPI then
+                    (tick 23 (unvisit r.text kind none (logRead al u { st with inprog := r.text :: st.inprog })), .ok none) else
+                  match walk inp f ⟨cx.doc, some u⟩ (some u, st.log.length + 1) (file.elemAs kind)
+                      (setMark copy (home, id) ((some u, st.log.length + 1), file.elemAs kind)
                         (tick 4 (logRead al u { st with inprog := r.text :: st.inprog }))) with
                   | (st1, ok) =>
-                    (unvisit r.text (some ((some u, st.log.length + 1), file.elem)) st1,
-                     okRes ok ((some u, st.log.length + 1), file.elem))
+                    (unvisit r.text kind (some ((some u, st.log.length + 1), file.elemAs kind)) st1,
+                     okRes ok ((some u, st.log.length + 1), file.elemAs kind))
                 else (tick 13 (logRead al u { st with inprog := r.text :: st.inprog }), .err)
           | .internal =>
             fragStep inp f cx home copy id kind r cx.doc cx.path { st with inprog := r.text :: st.inprog }
@@ -284,19 +306,29 @@ def fragStep (inp : Input) : Nat → Cx → Home → Bool → Nat → Kind → R
   | f + 1, cx, home, copy, id, kind, r, cdoc, cpath, st =>
     if r.badFrag then (tick 14 st, .err)
     else
-      match drill inp cx cdoc r.frag kind st with
+      match drill inp cdoc cpath r.frag kind st with
       | (st1, none) => (st1, .err)
       | (st1, some (thome, t)) =>
         if kind = .pathItem then
-          match walk inp f ⟨cdoc, cpath⟩ thome t.kids (setMark copy (home, id) (thome, t.kids) (tick 10 st1)) with
-          | (st2, ok) => (unvisit r.text (some (thome, t.kids)) st2, okRes ok (thome, t.kids))
+          match t.ref with
+          | none =>
+            match walk inp f ⟨cdoc, cpath⟩ thome t.kids (setMark copy (home, id) (thome, t.kids) (tick 10 st1)) with
+            | (st2, ok) => (unvisit r.text kind (some (thome, t.kids)) st2, okRes ok (thome, t.kids))
+          | some _ =>
+            -- the drilled path item is itself a reference: `resolvePathItemRef(doc, &resolved, documentPath)` first
+            match resolve inp f ⟨cdoc, cpath⟩ thome true t st1 with
+            | (st2, .err) => (st2, .err)
+            | (st2, .ok none) => (tick 19 (unvisit r.text kind none st2), .ok none)
+            | (st2, .ok (some val)) =>
+              match walk inp f ⟨cdoc, cpath⟩ val.1 val.2 (setMark copy (home, id) val (tick 20 st2)) with
+              | (st3, ok) => (unvisit r.text kind (some val) st3, okRes ok val)
         else
           match resolve inp f ⟨cdoc, cpath⟩ thome true t st1 with
           | (st2, .err) => (st2, .err)
-          | (st2, .ok none) => (tick 16 (unvisit r.text none st2), .ok none)
+          | (st2, .ok none) => (tick 16 (unvisit r.text kind none st2), .ok none)
           | (st2, .ok (some val)) =>
             match walk inp f cx val.1 val.2 (setMark copy (home, id) val st2) with
-            | (st3, ok) => (unvisit r.text (some val) st3, okRes ok val)
+            | (st3, ok) => (unvisit r.text kind (some val) st3, okRes ok val)
 /-- the loops over sub-elements (and over the components and paths in `ResolveRefsIn`) -/
 def walk (inp : Input) : Nat → Cx → Home → List Node → St → St × Bool
   | _, _, _, [], st => (st, true)
@@ -376,5 +408,88 @@ def specB (inp : Input) (log : List Url) : Bool :=
 def specEdges (inp : Input) (cands : List (Option Url)) : List (Option Url × Url) :=
   cands.flatMap (fun d =>
     ((refsAt inp d).filter (fun r => decide (r.form ≠ Form.internal))).map (fun r => (d, resolvePath d r.url)))
+
+/-! ### uniform universes (a static class on which the second sentence holds without exclusion) -/
+
+/-- the locations of the file universe: the root's and every stored file's -/
+def univ (inp : Input) : List (Option Url) := inp.root :: inp.store.map (fun e => some e.1)
+
+/-- every non-'#' reference of every file resolves to the same location from every location of the universe:
+    all references absolute (absolute paths, URLs), or all files in one directory, or any mixture for which the
+    base does not matter -/
+def Uniform (inp : Input) : Prop :=
+  ∀ d ∈ univ inp, ∀ r ∈ refsAt inp d, r.form ≠ Form.internal →
+    ∀ d' ∈ univ inp, resolvePath d' r.url = resolvePath d r.url
+
+instance (inp : Input) : Decidable (Uniform inp) := by unfold Uniform; infer_instance
+
+/-! ### the caching reader `URIMapCache` (loader_uri_reader.go; `DefaultReadFromURI` is `URIMapCache(ReadFromURIs(…))`)
+
+The loader hands every location to `ReadFromURIFunc`; when that is `URIMapCache(reader)`, the locations that reach
+the underlying `reader` are the ones not yet cached.  A relative file path is never cached; any other location is
+cached once a read of it has succeeded. -/
+
+/-- `location.Scheme == "" || location.Scheme == "file"` and `!filepath.IsAbs(location.Path)`: not cached -/
+def Url.cacheable (u : Url) : Bool := !((u.scheme == "" || u.scheme == "file") && !u.rooted)
+
+/-- the sub-sequence of `log` that reaches the reader wrapped by `URIMapCache`, given the locations cached so far -/
+def cacheFilter (inp : Input) : List Url → List Url → List Url
+  | _, [] => []
+  | cached, u :: rest =>
+    if u ∈ cached then cacheFilter inp cached rest
+    else u :: cacheFilter inp (if u.cacheable && (storeAt inp u).isSome then u :: cached else cached) rest
+
+/-! ### the walked positions (what the order of a node's `kids` stands for)
+
+(function, callee, component argument, enclosing loops) in source order; `sorted(m)` = the keys of map `m` in sorted
+order.  Compared with the table regenerated from openapi3/loader.go by `walk_sites_as_modelled` (Props/C11.lean). -/
+def expectedWalk : List (String × String × String × String) := [
+  ("ResolveRefsIn", "resolveHeaderRef", "components.Headers[name]", "sorted(components.Headers)"),
+  ("ResolveRefsIn", "resolveParameterRef", "components.Parameters[name]", "sorted(components.Parameters)"),
+  ("ResolveRefsIn", "resolveRequestBodyRef", "components.RequestBodies[name]", "sorted(components.RequestBodies)"),
+  ("ResolveRefsIn", "resolveResponseRef", "components.Responses[name]", "sorted(components.Responses)"),
+  ("ResolveRefsIn", "resolveSchemaRef", "components.Schemas[name]", "sorted(components.Schemas)"),
+  ("ResolveRefsIn", "resolveSecuritySchemeRef", "components.SecuritySchemes[name]", "sorted(components.SecuritySchemes)"),
+  ("ResolveRefsIn", "resolveExampleRef", "components.Examples[name]", "sorted(components.Examples)"),
+  ("ResolveRefsIn", "resolveCallbackRef", "components.Callbacks[name]", "sorted(components.Callbacks)"),
+  ("ResolveRefsIn", "resolveLinkRef", "components.Links[name]", "sorted(components.Links)"),
+  ("ResolveRefsIn", "resolvePathItemRef", "pathItems[name]", "sorted(pathItems)"),
+  ("resolveHeaderRef", "resolveHeaderRef", "&resolved", ""),
+  ("resolveHeaderRef", "resolveContentRefs", "value.Content", ""),
+  ("resolveHeaderRef", "resolveSchemaRef", "value.Schema", ""),
+  ("resolveHeaderRef", "resolveExampleRefs", "value.Examples", ""),
+  ("resolveParameterRef", "resolveParameterRef", "&resolved", ""),
+  ("resolveParameterRef", "resolveContentRefs", "value.Content", ""),
+  ("resolveParameterRef", "resolveSchemaRef", "value.Schema", ""),
+  ("resolveParameterRef", "resolveExampleRefs", "value.Examples", ""),
+  ("resolveRequestBodyRef", "resolveRequestBodyRef", "&resolved", ""),
+  ("resolveRequestBodyRef", "resolveContentRefs", "value.Content", ""),
+  ("resolveContentRefs", "resolveExampleRefs", "contentType.Examples", "sorted(content)"),
+  ("resolveContentRefs", "resolveSchemaRef", "contentType.Schema", "sorted(content)"),
+  ("resolveContentRefs", "resolveHeaderRef", "encoding.Headers[name]", "sorted(content);sorted(contentType.Encoding);sorted(encoding.Headers)"),
+  ("resolveExampleRefs", "resolveExampleRef", "examples[name]", "sorted(examples)"),
+  ("resolveResponseRef", "resolveResponseRef", "&resolved", ""),
+  ("resolveResponseRef", "resolveHeaderRef", "value.Headers[name]", "sorted(value.Headers)"),
+  ("resolveResponseRef", "resolveContentRefs", "value.Content", ""),
+  ("resolveResponseRef", "resolveLinkRef", "value.Links[name]", "sorted(value.Links)"),
+  ("resolveSchemaRef", "resolveSchemaRef", "&resolved", ""),
+  ("resolveSchemaRef", "resolveSchemaRef", "value.Items", ""),
+  ("resolveSchemaRef", "resolveSchemaRef", "value.Properties[name]", "sorted(value.Properties)"),
+  ("resolveSchemaRef", "resolveSchemaRef", "value.AdditionalProperties.Schema", ""),
+  ("resolveSchemaRef", "resolveSchemaRef", "value.Not", ""),
+  ("resolveSchemaRef", "resolveSchemaRef", "each(value.AllOf)", "value.AllOf"),
+  ("resolveSchemaRef", "resolveSchemaRef", "each(value.AnyOf)", "value.AnyOf"),
+  ("resolveSchemaRef", "resolveSchemaRef", "each(value.OneOf)", "value.OneOf"),
+  ("resolveSecuritySchemeRef", "resolveSecuritySchemeRef", "&resolved", ""),
+  ("resolveExampleRef", "resolveExampleRef", "&resolved", ""),
+  ("resolveCallbackRef", "resolveCallbackRef", "&resolved", ""),
+  ("resolveCallbackRef", "resolvePathItemRef", "pathItems[name]", "sorted(pathItems)"),
+  ("resolveLinkRef", "resolveLinkRef", "&resolved", ""),
+  ("resolvePathItemRef", "resolvePathItemRef", "&resolved", ""),
+  ("resolvePathItemRef", "resolveParameterRef", "each(pathItem.Parameters)", "pathItem.Parameters"),
+  ("resolvePathItemRef", "resolveParameterRef", "each(operation.Parameters)", "sorted(operations);operation.Parameters"),
+  ("resolvePathItemRef", "resolveRequestBodyRef", "operation.RequestBody", "sorted(operations)"),
+  ("resolvePathItemRef", "resolveResponseRef", "responses[name]", "sorted(operations);sorted(responses)"),
+  ("resolvePathItemRef", "resolveCallbackRef", "operation.Callbacks[name]", "sorted(operations);sorted(operation.Callbacks)")]
 
 end KinModel.Reads
